@@ -50,6 +50,11 @@ def build_model(case):
     span = spans.build(desc)
     n = len(span)
     m = M(span, **{nm: np.arange(1.0, n + 1) * (i + 1) for i, nm in enumerate(M.NAMES)})
+    if case.get('export_first'):
+        # the object was exported once before it got its additional variables
+        attempt(m.to_dataframe)
+        attempt(tools.model_to_dataframe, m, include_internal=False)
+        attempt(tools.model_to_dataframe, m, include_internal=True)
     for j in case.get('extras') or []:
         nm, dt = EXTRAS[j % len(EXTRAS)]
         if nm in m.index:
@@ -216,6 +221,9 @@ def check_linker(case):
         linker = L(subs, name=case.get('name', '_'), T=np.arange(float(len(labels))))
     else:
         linker = L({}, span=spans.build(desc), name=case.get('name', '_'))
+    if case.get('export_first'):
+        attempt(linker.to_dataframes)
+        attempt(linker.to_dataframe, include_internal=False)
     for j in case.get('extras') or []:
         nm, dt = EXTRAS[j % len(EXTRAS)]
         if nm not in linker.index:
@@ -282,6 +290,7 @@ def strat_model():
         'extras': st.lists(st.integers(0, len(EXTRAS) - 1), max_size=6),
         'solved': st.integers(0, 2),
         'rep': tapes(3),
+        'export_first': st.booleans(),
     })
 
 
@@ -297,7 +306,7 @@ def strat_linker():
         return {'span': draw(st.sampled_from(descs)),
                 'subs': [{'id': i, 'prog': draw(prog), 'extras': draw(st.lists(st.integers(0, len(EXTRAS) - 1), max_size=4))} for i in ids],
                 'name': draw(st.sampled_from(['_', 'core', 0])), 'extras': draw(st.lists(st.integers(0, len(EXTRAS) - 1), max_size=4)),
-                'solved': draw(st.booleans()), 'rep': draw(tapes(3))}
+                'solved': draw(st.booleans()), 'rep': draw(tapes(3)), 'export_first': draw(st.booleans())}
     return cases()
 
 
